@@ -5,8 +5,10 @@ Stages
      matrices / preconditioners, a zero right-hand side, calls that hit maxiter, a call that breaks
      down and throws) vs a fresh object per call: identical outputs required, all eight solvers,
      exact (vq::Q) and double (bit patterns, including calls that produce NaN/Inf);
-     for the five modelled solvers the sequence is also compared with the Coq model evaluated
-     call by call from a junk workspace (junk independence is theorem C15_*_junk_independent).
+     the sequence is also compared with the Coq model object of each solver (all eight), whose
+     state is threaded through the calls and which starts from a junk-filled workspace (junk
+     independence is theorem C15_*_junk_independent); IDR(s): the constructor's std::mt19937
+     draws are an explicit input of the model (krylov_cases.with_idrs_raw).
   2. inputs unchanged: the harness compares matrix and right-hand side before/after every call.
   3. zero right-hand side => (0 iterations, x = 0); initial guess that already satisfies the
      tolerance => 0 iterations and x unchanged.
@@ -26,11 +28,14 @@ TRUSTED_BASE = [
     "Extract_krylov.v via ExtractCommon.v (Z.ggcd realised by zarith gcd)",
     "operator abstraction: A and P enter the Coq model as functions vec -> vec; P.apply is assumed to overwrite its output",
     "the workspace record of each model lists the mutable members of the C++ class by reading the class (cg: r,s,p,q; "
-    "bicgstab: r,p,v,s,t,rh,T; richardson: r,s; gmres/fgmres: H,s,cs,sn,r,v[],z[])",
+    "bicgstab: r,p,v,s,t,rh,T; richardson: r,s; gmres/fgmres: H,s,cs,sn,r,v[],z[]; lgmres: the same + outer_v (ring of slot "
+    "indices) and outer_v_data[]; bicgstabl: Rt,X,B,T,R[],U[] (MZa,MZb,Y0,YL,qr scratch are written completely before "
+    "they are read in every polynomial part and are local in the model); idrs: M,f,c,r,v,t,x_s,r_s,G[],U[] + constant shadow space P[])",
 ]
 ASSUMPTIONS = [
     "C15-A1 (junk independence) is proved for every Scalar record whose zero satisfies is_zero 0 = true (IEEE floats do); "
-    "lgmres, bicgstabl, idrs: no model, reuse is tested on the implementation (sequence vs fresh objects) only",
+    "bicgstabl / idrs additionally assume that the workspace vectors cleared at the start of a call (X, U[0]; G[i], U[i]) have "
+    "the allocated length n in both objects (the constructor allocates them so)",
     "amg / skyline_lu / deflated_solver reuse: other groups (C02/C16)",
 ]
 TOL10 = F(1, 1024)
@@ -150,7 +155,7 @@ def run(ctx, cases_override=None):
         elif kind == "dseq": fl.append(l.replace(" d.seq ", " d.seqfresh ", 1))
     fresh = ctx["run_driver"](ctx["cpp"]["krylov"], fl, timeout=TMO)
     ml = [l for l, kind, meta in cs if kind in ("seq", "lgmres-noreset") and meta["solver"] in kc.MODELLED]
-    model = ctx["run_driver"](ctx["model"], ml, timeout=TMO)
+    model = ctx["run_driver"](ctx["model"], kc.with_idrs_raw(ctx, ml), timeout=TMO)
     info = dict(lgmres_noreset_differs=0, lgmres_noreset_total=0, calls_with_exception=0, calls_with_nan=0,
                 long_calls=0, long_calls_with_10plus_restarts=0, lgmres_calls_more_than_K_restarts=0,
                 lgmres_calls_ring_phase_nonzero=0)
